@@ -17,6 +17,7 @@ RULE = ("Hypothesis: well-formed notes on 2 channels over 1-3 pitches (abutting 
         "argmin |v-old| over fit; velocity/onset/pitch/channel unchanged; non-note events identical; no overlap. "
         "Non-trivial: >= 2 notes of one key and >= 1 note whose duration is not in the list. Distinct by case digest.")
 RULE = RULE + " Rounds e-g: gaps up to 70 and values 72/96, one 10^4..10^5-tick note, several control changes per tick, SEQUENCE_CONTROL noise, channel pools, silent notes, far tick shifts, self-concatenated inputs."
+RULE = RULE + " Round h: default note values, standard_length, second-call histories, removal-only cases."
 ASSUMPTIONS = ["total duration (trailing INTERNAL marker) is not part of the statement"]
 TIERS = {"quick": dict(shards=8, examples=1500, alt_ppqn=[480], alt_shards=2),
          "thorough": dict(fuzz_runs=20000, fuzz_shards=4, size=2, shards=16, examples=25000, alt_ppqn=[480, 7, 1000], alt_shards=2)}
@@ -43,9 +44,24 @@ def _case(draw, size=1):
     gens.far_shift(draw, spec)
     if draw(st.integers(0, 7)) == 0:
         spec["double"] = draw(st.sampled_from(["self", "fresh"]))     # the material twice: one message object, two positions
+    exact = draw(st.integers(0, 5)) == 0
     values = draw(st.one_of(st.lists(st.sampled_from(VALUES), min_size=0, max_size=5),
                             st.sampled_from([[24, 12, 6, 16, 8, 4, 36, 18, 9], [12], [4, 2], [48, 24], [3, 5], [96], [48], [96, 12]])))
-    return {"seq": spec, "values": list(values), "dne": draw(st.booleans())}
+    if exact and values and not spec.get("double"):
+        # every note already has an allowed length, except 1-tick notes that fit no value: the call has nothing to adjust, it can
+        # only remove (or leave everything alone)
+        spec["notes"] = draw(gens.wellformed_notes(channels="pool", pitches=pitches, max_notes=6, lengths=sorted(set(values) | {1}),
+                                                   max_gap=draw(st.sampled_from([0, 3, 30]))))
+    case = {"seq": spec, "values": list(values), "dne": draw(st.booleans())}
+    if not exact and draw(st.integers(0, 9)) == 0:
+        case["default_values"] = True     # note_values left at its default
+    if draw(st.integers(0, 5)) == 0:
+        # a history on one object: note lengths were quantised before with another value list (and possibly read)
+        case["pre_values"] = draw(st.sampled_from([[12], [8, 4], [24, 6], [5], [36, 16]]))
+        case["pre_read"] = draw(st.sampled_from([None, None, "abs", "rel"]))
+    if draw(st.integers(0, 5)) == 0:
+        case["standard_length"] = draw(st.sampled_from([1, 12, 24, 48]))      # only used for unclosed notes; there are none
+    return case
 
 
 def strategy(params, shard, nshards):
@@ -56,17 +72,46 @@ def strategy(params, shard, nshards):
 def check(case):
     out = Outcome()
     values, dne = case["values"], case["dne"]
+    kw = {}
+    if case.get("default_values"):
+        from pbt.sut import PPQN
+        if PPQN != 24:
+            out.inconclusive = "default-note-values-at-another-ppqn"
+            return out
+        values = [24, 12, 6, 16, 8, 4, 36, 18, 9]
+        out.label("default-note-values")
+    if case.get("standard_length"):
+        kw["standard_length"] = case["standard_length"]
     built = build_input(out, case["seq"])
     if built is None:
         return out
     seq, ev0, d0, notes0 = built
+    if case.get("pre_values"):
+        out.label("quantised-before")
+        try:
+            seq.quantise_note_lengths(list(case["pre_values"]))
+            if case.get("pre_read") == "rel":
+                _ = seq.rel
+            elif case.get("pre_read") == "abs":
+                _ = seq.abs
+            ev0, d0 = O.seq_events(seq)
+            notes0, an0 = O.notes(ev0)
+        except Exception as e:
+            out.inconclusive = f"first-call-raised:{type(e).__name__}"
+            return out
+        if an0 or O.overlaps(notes0):
+            out.inconclusive = "first-call-left-ill-formed-content"
+            return out
     by_key = defaultdict(list)
     for n in notes0:
         by_key[(n[0], n[1])].append(n)
     out.nontrivial = any(len(v) >= 2 for v in by_key.values()) and any(n[3] - n[2] not in values for n in notes0)
     out.label("do-not-extend" if dne else "may-extend")
     try:
-        seq.quantise_note_lengths(list(values), do_not_extend=dne)
+        if case.get("default_values"):
+            seq.quantise_note_lengths(do_not_extend=dne, **kw)
+        else:
+            seq.quantise_note_lengths(list(values), do_not_extend=dne, **kw)
     except Exception as e:
         out.fail("quantise-note-lengths-raises", f"{type(e).__name__}: {e}")
         return out
